@@ -262,6 +262,11 @@ def findBracket (cs : List Char) : List (Char × Char) → Option (Nat × Char)
     | some i => some (i, c)
     | none => findBracket cs rest
 
+/-- characters that can occur in some Python `float()` literal (digits, sign, point, exponent,
+    underscore, blanks, the letters of inf/nan/infinity). -/
+def floatChar (c : Char) : Bool :=
+  ('0' ≤ c && c ≤ '9') || "+-._eE \t\ninfatyINFATY".toList.contains c
+
 /-- `fromstring(value)`: result `fraction * array` as exact rationals.
     Numerals outside the integer grammar give `.format` (not modelled: Python's float grammar). -/
 def fromChars (cs : List Char) : Except Err (List Rat) :=
@@ -281,7 +286,10 @@ def fromChars (cs : List Char) : Except Err (List Rat) :=
           | [p, q] =>
             match parseInt? (trimSpaces p), parseInt? (trimSpaces q) with
             | some p, some q => if q = 0 then .error .zerodiv else .ok ((p : Rat) / (q : Rat))
-            | _, _ => .error .format
+            | _, _ =>
+              -- `float(term)`: a character that no Python float literal contains gives ValueError;
+              -- anything else is outside the modelled (integer) numeral grammar
+              if (p ++ q).all floatChar then .error .format else .error .value
           | _ => .error .assert               -- 'fraction can only have one /'
         else .ok 1
       match fracE with
